@@ -4,6 +4,7 @@ import (
 	"bytes"
 	"fmt"
 	"hash/fnv"
+	"regexp"
 	"runtime"
 	"runtime/debug"
 	"sort"
@@ -141,7 +142,25 @@ func curGID() uint64 {
 
 func (s *Sim) Now() time.Duration { return time.Since(s.Start) }
 
+var ptrRe = regexp.MustCompile(`0x[0-9a-f]{6,}`)
+var tmpRe = regexp.MustCompile(`/[^ :"']*/run-[A-Za-z0-9]+-[0-9]+-[0-9]+`)
+
+// sanitize removes what differs between two executions of the same tape for
+// reasons unrelated to behaviour: pointer values and the temporary directory.
+func sanitize(x string) string {
+	if strings.Contains(x, "0x") {
+		x = ptrRe.ReplaceAllString(x, "0xPTR")
+	}
+	if strings.Contains(x, "/run-") {
+		x = tmpRe.ReplaceAllString(x, "$RUN")
+	}
+	return x
+}
+
 func (s *Sim) Event(kind string, a ...string) {
+	for i := range a {
+		a[i] = sanitize(a[i])
+	}
 	now := int64(s.Now())
 	s.mu.Lock()
 	s.seq++
@@ -156,7 +175,7 @@ func (s *Sim) Seq() uint64 {
 }
 
 func (s *Sim) Violate(rule, sig, format string, a ...any) {
-	d := fmt.Sprintf(format, a...)
+	d := sanitize(fmt.Sprintf(format, a...))
 	s.mu.Lock()
 	s.Viol = append(s.Viol, Violation{Rule: rule, Sig: sig, Detail: d})
 	s.mu.Unlock()
@@ -172,7 +191,12 @@ func (s *Sim) Failed() bool {
 	defer s.mu.Unlock()
 	return len(s.Viol) > 0 || s.EnginePanic != "" || s.HarnessErr != ""
 }
-func (s *Sim) State(abstract string) { s.mu.Lock(); s.states[abstract] = true; s.mu.Unlock() }
+func (s *Sim) State(abstract string) {
+	abstract = sanitize(abstract)
+	s.mu.Lock()
+	s.states[abstract] = true
+	s.mu.Unlock()
+}
 
 // MixSig folds scenario-level choices into the run signature.
 func (s *Sim) MixSig(parts ...string) { s.mixSig(parts...) }
@@ -278,7 +302,12 @@ func (s *Sim) hookEvent(kind string, args []string) {
 
 func (s *Sim) hookOrder(point string, names []string) []string {
 	if s.OrderOn == nil {
-		return nil
+		// default: a fixed (sorted) order instead of the runtime's map iteration
+		// order, so that a run is a function of its tape; scenarios that explore
+		// the load order install their own OrderOn
+		out := append([]string(nil), names...)
+		sort.Strings(out)
+		return out
 	}
 	return s.OrderOn(point, names)
 }
